@@ -90,6 +90,18 @@ def rename_aliases(raw, ref):
             taken.add(n)
             perms[m] = [have.index(a) for a in want_args]      # reference position j -> current position perms[m][j]
     raw["_param_perms"] = perms
+    # moved to another module / file unchanged: same simple name, same parameter and return types, exactly one such item
+    for m in sorted(missing):
+        if m in out.values():
+            continue
+        name = m.rsplit("::", 1)[-1]
+        want = (tuple(sigs[m]["args"]), sigs[m]["ret"])
+        cands = [n for n in new if n not in taken and n.rsplit("::", 1)[-1] == name and cur[n]["kind"] == "Fn"
+                 and (tuple(l["ty"] for l in cur[n]["locals"][1:1 + cur[n]["arg_count"]]), cur[n]["ret_ty"]) == want]
+        rivals = [m2 for m2 in missing if m2 not in out.values() and m2.rsplit("::", 1)[-1] == name and (tuple(sigs[m2]["args"]), sigs[m2]["ret"]) == want]
+        if len(cands) == 1 and len(rivals) == 1 and "::{impl" not in m and not sigs[m]["parent"].endswith("}"):
+            out[cands[0]] = m
+            taken.add(cands[0])
     rc = ref.get("consts", {})
     ccur = {c["path"]: c for c in raw["consts"]}
     cmiss = [p for p in rc if p not in ccur]
@@ -100,6 +112,17 @@ def rename_aliases(raw, ref):
         cands = [n for n in cnew if n.rsplit("::", 1)[0] == mod and (ccur[n]["ty"], json.dumps(ccur[n].get("value"), sort_keys=True)) == want and rc[m]["value"] is not None]
         rivals = [m2 for m2 in cmiss if m2.rsplit("::", 1)[0] == mod and (rc[m2]["ty"], json.dumps(rc[m2]["value"], sort_keys=True)) == want]
         if len(cands) == 1 and len(rivals) == 1 and cands[0] not in taken:
+            out[cands[0]] = m
+            taken.add(cands[0])
+    # constants moved to another module unchanged: same simple name, type and value, exactly one such constant
+    for m in sorted(cmiss):
+        if m in out.values() or rc[m]["value"] is None:
+            continue
+        name = m.rsplit("::", 1)[-1]
+        want = (rc[m]["ty"], json.dumps(rc[m]["value"], sort_keys=True))
+        cands = [n for n in cnew if n not in taken and n.rsplit("::", 1)[-1] == name and (ccur[n]["ty"], json.dumps(ccur[n].get("value"), sort_keys=True)) == want]
+        rivals = [m2 for m2 in cmiss if m2 not in out.values() and m2.rsplit("::", 1)[-1] == name and (rc[m2]["ty"], json.dumps(rc[m2]["value"], sort_keys=True)) == want]
+        if len(cands) == 1 and len(rivals) == 1:
             out[cands[0]] = m
             taken.add(cands[0])
     return out
